@@ -79,7 +79,10 @@ class Arr:
         t = self.t
         out = []
         if t.chance(pct):
-            names = t.shuffle(DIRS)[: t.weighted([(3, 1), (2, 2), (1, 3)])]
+            n = t.weighted([(3, 1), (2, 2), (1, 3)])
+            # schema-side, the same directive may be applied several times to one element (each
+            # instance with its own arguments); query-side instances must be distinct per location
+            names = [t.choose(DIRS) for _ in range(n)] if t.chance(35) else t.shuffle(DIRS)[:n]
             for d in names:
                 self.n += 1
                 k = t.choose([None, None, 1, 7])
